@@ -27,7 +27,7 @@ What is EXPLORED (part b, ctx.explored): the real `decode` of EVERY registered d
     get a seed-rotated sample of the same errors on their existing non-square sizes (sizes not enlarged);
   * PlanarY (a look-up whose branch depends on gcd(R, C)): all 2 <= R, C <= 12 (thorough) / every pair with
     gcd not in {1, R, C} + small + seed-rotated coprime and dividing pairs (quick); Y-only errors of every weight 1..6,
-    all weight-<=2 errors within one boundary, `several defects on one boundary` (boundary_subset_errors: subsets of
+    all weight-<=2 errors within one boundary (quick: on the small sizes and a seed-rotated half of the gcd-table sizes, 40 sampled elsewhere), `several defects on one boundary` (boundary_subset_errors: subsets of
     sizes 3..6 and stride patterns), the rim / corner errors, random spread weights.
   Quick tier, lattices with more than 100 qubits: the Lean evaluation of the monitor is made on every 4th accepted output
   and every rejected one (the Python evaluation on all).
@@ -981,7 +981,7 @@ def planar_y_sizes(ctx):
     return sorted(set(table + small + ctx.rng.sample(coprime, 4) + ctx.rng.sample(divides, 4)))
 
 
-def planar_y_cases(ctx, spec, table):
+def planar_y_cases(ctx, spec, table, all_w2=True):
     """Y-only errors: (exhaustive over the syndromes of Y-only errors when that space is small, else) every weight-1
     error on the rim + sampled elsewhere, every weight-<=2 error within one boundary, several defects on one boundary
     (subsets of sizes 3..6, stride patterns), the localised rim / corner errors, random errors of every weight 1..6 and
@@ -989,18 +989,18 @@ def planar_y_cases(ctx, spec, table):
     q = ctx.quick()
     code, S, _ = code_of(spec)
     n = S.shape[1] // 2
-    cases, exh = error_cases(ctx, spec, yonly=True, exhaustive_rank=9 if q else 12, n_random=(12 if q else 40),
+    cases, exh = error_cases(ctx, spec, yonly=True, exhaustive_rank=9 if q else 12, n_random=(12 if q else 20),
                              singles=not q)
     if exh:
         return cases, True
-    extra = boundary_subset_errors(ctx, spec, 'Y', all_upto=2, cap3=((16 if table else 6) if q else 120),
-                                   n_more=((3 if table else 2) if q else 25))
-    if q and not table:  # quick: all weight-<=2 rim errors on the table class and the small sizes only
+    extra = boundary_subset_errors(ctx, spec, 'Y', all_upto=2, cap3=((16 if table else 6) if q else 40),
+                                   n_more=((3 if table else 2) if q else 6))
+    if q and not all_w2:  # quick: all weight-<=2 rim errors on the small sizes and a seed-rotated half of the table class
         w2 = [c for c in extra if c[1] == 'rim-w2']
         extra = [c for c in extra if c[1] != 'rim-w2'] + ctx.rng.sample(w2, min(len(w2), 40))
     extra += localised_errors(spec, yonly=True)
     for w in range(1, 7):
-        for _ in range((2 if q else 12)):
+        for _ in range((2 if q else 6)):
             if w <= n:
                 extra.append((random_error(ctx.rng, n, w, True), 'w%d' % w))
     if q:
@@ -1018,11 +1018,14 @@ def planar_y_cases(ctx, spec, table):
 def run_planar_y(ctx, acc):
     import math
     dspec = D('PlanarY')
-    for (R, C) in planar_y_sizes(ctx):
+    sizes = planar_y_sizes(ctx)
+    tables = [t for t in sizes if math.gcd(*t) not in (1, t[0], t[1])]
+    all_w2 = set(ctx.rng.sample(tables, len(tables) // 2)) if ctx.quick() else set(sizes)
+    for (R, C) in sizes:
         spec = ('planar', R, C)
         g = math.gcd(R, C)
         cls = 'coprime' if g == 1 else ('divides' if g in (R, C) else 'table')
-        cases, exh = planar_y_cases(ctx, spec, cls == 'table')
+        cases, exh = planar_y_cases(ctx, spec, cls == 'table', (R, C) in all_w2)
         ctx.count('b_planar_y_class', cls)
         for e, s, tag in cases:
             ctx.count('b_planar_y_kind', tag)
@@ -1063,9 +1066,11 @@ def run_smwpm(ctx, acc):
                             evaluate(ctx, acc, spec, dspec, ('bpf',), ctx.rng.choice(PS), e, s, exhaustive=exh)
 
 
-def thin(ctx, cases, k, keep=('rim-single',)):
-    """quick tier: every case whose tag is in `keep` + k seed-rotated others; thorough: all"""
+def thin(ctx, cases, k, kt=None, keep=('rim-single',)):
+    """every case whose tag is in `keep` + k (quick) / kt (thorough; None = all) seed-rotated others"""
     if not ctx.quick():
+        k = kt
+    if k is None:
         return cases
     kept = [c for c in cases if c[2] in keep]
     rest = [c for c in cases if c[2] not in keep]
@@ -1084,15 +1089,15 @@ def run_lattice_grid(ctx, acc, rec):
         spec = ('planar', R, C)
         ctx.count('grid_size', 'planar:{}x{}'.format(R, C))
         cases = with_syndromes(spec, localised_errors(spec))
-        for e, s, tag in thin(ctx, cases, 30):
+        for e, s, tag in thin(ctx, cases, 30, 120):
             planar_mwpm_case(ctx, acc, rec, spec, e, s, False)
-        for dspec in [D('PlanarCMWPM')] + ctx.rng.sample(cm, 1 if q else 4):
-            for e, s, tag in thin(ctx, cases, 10, keep=()) if q else thin(ctx, cases, 0):
+        for i, dspec in enumerate([D('PlanarCMWPM')] + ctx.rng.sample(cm, 1 if q else 2)):
+            for e, s, tag in thin(ctx, cases, 10, 30, keep=(() if (q or i) else ('rim-single',))):
                 cmwpm_case(ctx, acc, rec, spec, dspec, e, s, False)
     for (R, C) in size_grid(ctx, 2, 8, n_extra=1 if q else 0):
         spec = ('toric', R, C)
         ctx.count('grid_size', 'toric:{}x{}'.format(R, C))
-        for e, s, tag in thin(ctx, with_syndromes(spec, localised_errors(spec)), 30):
+        for e, s, tag in thin(ctx, with_syndromes(spec, localised_errors(spec)), 30, 100):
             toric_mwpm_case(ctx, acc, rec, spec, e, s, False)
     # symmetry-matching decoders: the context decides the graph (finite bias: any Pauli; infinite bias: Y-only)
     for name, fam, sizes in (('RotatedPlanarSMWPM', 'rplanar', size_grid(ctx, 3, 8, n_extra=1)),
@@ -1107,11 +1112,11 @@ def run_lattice_grid(ctx, acc, rec):
                 kws.append({'itp': True})
             for kw in kws:
                 dspec = D(name, **kw)
-                for e, s, tag in thin(ctx, fin, 15) if not kw else thin(ctx, fin, 20, keep=()):
+                for e, s, tag in thin(ctx, fin, 15, 60) if not kw else thin(ctx, fin, 20, 40, keep=()):
                     em = ctx.rng.choice(EMS_FINITE_BIAS if 'eta' not in kw else EMS_FINITE_BIAS + [('bpf',)])
                     evaluate(ctx, acc, spec, dspec, em, ctx.rng.choice(PS), e, s)
                 if 'eta' not in kw:
-                    for e, s, tag in thin(ctx, inf, 10):
+                    for e, s, tag in thin(ctx, inf, 10, 20):
                         evaluate(ctx, acc, spec, dspec, ('bpf',), ctx.rng.choice(PS), e, s)
     # tensor-network decoders: sizes NOT enlarged
     tn = [('PlanarMPS', [('planar', 2, 3), ('planar', 3, 2), ('planar', 4, 3), ('planar', 2, 4), ('planar', 3, 6),
@@ -1125,7 +1130,7 @@ def run_lattice_grid(ctx, acc, rec):
         for spec in specs:
             cases = with_syndromes(spec, localised_errors(spec))
             for dspec in (D(name, chi=2), D(name, chi=4, mode='a')):
-                for e, s, tag in ctx.rng.sample(cases, min(len(cases), 4 if q else 40)):
+                for e, s, tag in ctx.rng.sample(cases, min(len(cases), 2 if q else 12)):
                     evaluate(ctx, acc, spec, dspec, ctx.rng.choice(EMS_ANY), ctx.rng.choice(PS), e, s)
 
 
@@ -1249,7 +1254,8 @@ def run(ctx):
         'times_logical_keeps_syndrome; checked literally per decode (coset op)',
         'SMWPM x2: the recovery construction (graphs, clustering, paths) IS modelled and proved for any perfect '
         'matchings (Props/C02/Smwpm.lean, SmwpmToric.lean); edge WEIGHTS and the matching algorithm are not (irrelevant to '
-        'C02). PlanarY internals are not modelled: explored through the verified monitor only',
+        'C02). PlanarY: construction modelled (Model/PlanarY.lean) and proved for R >= C with gcd != 1; remaining cases tied '
+        'exactly and explored through the verified monitor',
     ]
     # the two symmetry-matching decoders: recovery construction inside the model (Model/Smwpm.lean, Props/C02/Smwpm*.lean)
     from qv import c02_smwpm
@@ -1259,6 +1265,14 @@ def run(ctx):
         'rule': 'RotatedPlanarSMWPMDecoder / RotatedToricSMWPMDecoder: recorded graph nodes and edges, matchings, clusters, '
                 'cluster graph, both recovery stages and the final recovery compared exactly with Model/Smwpm.lean given '
                 'the recorded matchings; _path_operator over all pairs'}
+    # planar Y decoder: construction inside the model (Model/PlanarY.lean, Props/C02/PlanarY*.lean)
+    from qv import c02_planary
+    before = ctx.evaluations
+    c02_planary.cases(ctx)
+    ctx.explored['planary_model_tie'] = {
+        'evaluations': ctx.evaluations - before, 'exhaustive': False,
+        'rule': 'PlanarYDecoder: snake fills, partial recoveries, destabilisers, the whole residual look-up table, y-stabilizers, '
+                'y-logical and _sample_recovery on Y-only errors compared bit for bit with Model/PlanarY.lean'}
     ctx.exhaustive = False
     return ctx.finish(RULE, search=search,
                       explanation='modelled constructions proved in Lean under named C15/C07 hypotheses and tied by exact '
